@@ -159,8 +159,11 @@ fn main() {
                     journal.line(&format!("EVAL {}", case_json(&w, wseed, "search", "")));
                 }
                 stats.inc("jobs");
+                let mut job_hash = simcore::Fnv::new();
                 match explore(&w, wseed, iters) {
                     Ok(ex) => {
+                        job_hash.u64(ex.executions);
+                        job_hash.str(ex.failure.as_ref().map(|f| f.0.as_str()).unwrap_or("ok"));
                         stats.add("evals", ex.executions);
                         stats.add("logical_steps", ex.executions);
                         stats.add("evals_with_fault_fired", ex.executions); // every execution is a different interleaving
@@ -206,7 +209,7 @@ fn main() {
                         stats.sample("reference_failed", || json!({"workload": w.to_json(), "error": e}));
                     }
                 }
-                journal.line(&format!("END {} 0", i));
+                journal.line(&format!("END {} 0 {:016x}", i, job_hash.0));
                 i += stride;
                 if let Some(d) = deadline {
                     if std::time::Instant::now() > d {
